@@ -1,5 +1,12 @@
 (* C10 — Chunking independence.  Statements only; proofs are in TM.LoopSends,
-   TM.LoopTablet, TM.LoopEnvLemmas, TM.LoopLemmas, TM.LoopSim, TM.LoopProps.
+   TM.LoopTablet, TM.LoopEnvLemmas, TM.LoopLemmas, TM.LoopSim, TM.LoopProps, and
+   TM.Pipeline for the whole-pipeline theorems at the end (bytes that arrive on
+   the keyboard descriptor -> bytes written to the virtual keyboard:
+   C10_device_bytes_out_is, C10_bytes_out_depend_only_on_events_read,
+   C10_bytes_out_with_tablet_events, C10_bytes_out_after_a_tablet_event,
+   C10_no_stuck_keys_at_the_device,
+   C10_no_stuck_keys_at_the_device_with_tablet_events,
+   C10_every_write_keeps_the_device_in_step).
 
    Vocabulary (TM.LoopSpec, TM.LoopEnv): for `(cs, o) = Loop.run is_action L rs`,
    `combine cs rs` is the transcript (each answered call with its answer);
@@ -11,6 +18,7 @@
    `epath e tr e'`: tr is admissible for the edge-triggered environment. *)
 From TM Require Import Base Mapper Monitors MapperInv MapperProps Loop LoopEnv LoopMonitors LoopSpec
                        LoopLemmas LoopSends LoopTablet LoopEnvLemmas LoopProps.
+From TM Require Json RustOps Convert Serde Trace Wire WireSpec Pipeline.
 
 (* For EVERY key classification, EVERY layout and EVERY script of answers (any
    length; any batching into wake-ups, device order, spurious time-outs,
@@ -162,4 +170,213 @@ Example C10_example :
      = [CRegister; CPoll None; CNextKbd; CSend [Pressed 48%N]; CNextKbd; CPoll None; CPoll None;
         CPoll None; CNextTab; CNextKbd; CSend [Released 48%N]; CNextKbd; CPoll None; CNextKbd;
         CSend [Pressed 31%N]; CNextKbd; CPoll None].
+Proof. vm_compute. repeat split; reflexivity. Qed.
+
+(* ---------- the whole pipeline: bytes in -> bytes out (TM.Pipeline) ---------- *)
+
+(* `Pipeline.device_bytes_out` is ONE function from the layout and the bytes
+   that arrive on the keyboard descriptor to the bytes written to the virtual
+   keyboard: the tool's reader (C18), the mapper on the key events it returns,
+   one write(2) of `encode_batch` (C18_wellformed) per non-empty step output. *)
+Theorem C10_device_bytes_out_is :
+  forall (is_action : key -> bool) (L : layout) (s : list N),
+    Pipeline.device_bytes_out is_action L s
+    = concat (map Wire.encode_batch
+                (filter non_nil (map fst (fst (Mapper.run is_action L init (Wire.decode_stream s)))))).
+Proof. reflexivity. Qed.
+Print Assumptions C10_device_bytes_out_is.
+
+(* For EVERY key classification, layout, byte stream s arriving on the keyboard
+   descriptor and EVERY admissible transcript of the run against the
+   edge-triggered environment that delivers the key events of s (in any batches
+   at any moments, with time-outs, interruptions, end of device or errors
+   anywhere): the bytes written by the sends that do not directly follow a
+   time-out (those are the timer chords of C11; none occur without a time-out
+   answer) are `device_bytes_out` of a PREFIX s1 of the bytes that arrived - the
+   prefix whose key events were read - and of all of s once everything that
+   arrived has been read.  Never a function of how the events were chunked. *)
+Theorem C10_bytes_out_depend_only_on_events_read :
+  forall (is_action : key -> bool) (L : layout) (rs : list resp) (cs : list call) (o : outcome)
+         (s : list N) (kends : bool) (tb : list bool) (tends : bool) (t0 : Z) (e' : env),
+    Loop.run is_action L rs = (cs, o) -> no_tab_event rs ->
+    epath (env0 (Wire.decode_stream s) kends tb tends t0) (combine cs rs) e' ->
+    (exists s1 s2 : list N,
+        s = s1 ++ s2
+        /\ kbd_reads (combine cs rs) = Wire.decode_stream s1
+        /\ concat (map Wire.encode_batch (msends false cs rs)) = Pipeline.device_bytes_out is_action L s1)
+    /\ (kbd_reads (combine cs rs) = Wire.decode_stream s ->
+        concat (map Wire.encode_batch (msends false cs rs)) = Pipeline.device_bytes_out is_action L s).
+Proof. exact Pipeline.bytes_out_depend_only_on_events_read. Qed.
+Print Assumptions C10_bytes_out_depend_only_on_events_read.
+
+(* With tablet events, for EVERY answer script: the same bytes are the encoded
+   non-empty mapper outputs for the inputs the transcript implies (key events
+   read while the switch is off, a release-all per tablet event). *)
+Theorem C10_bytes_out_with_tablet_events :
+  forall (is_action : key -> bool) (L : layout) (rs : list resp) (cs : list call) (o : outcome),
+    Loop.run is_action L rs = (cs, o) ->
+    concat (map Wire.encode_batch (msends false cs rs))
+    = concat (map Wire.encode_batch
+                (filter non_nil (fst (mrun is_action L init (minputs false (combine cs rs)))))).
+Proof. exact Pipeline.loop_bytes_are_bytes_of_inputs. Qed.
+Print Assumptions C10_bytes_out_with_tablet_events.
+
+(* In particular, a tablet event after the key events of s: the bytes are
+   `device_bytes_out` followed by `device_bytes_tablet_on` = the encoded
+   release-all batch from the mapper state after those key events (nothing when
+   it is empty).  These two functions, extracted, are what the `realloop` engine
+   compares with the bytes written by the real loop with the real driver. *)
+Theorem C10_bytes_out_after_a_tablet_event :
+  forall (is_action : key -> bool) (L : layout) (rs : list resp) (cs : list call) (o : outcome) (s : list N),
+    Loop.run is_action L rs = (cs, o) ->
+    minputs false (combine cs rs) = map IEv (Wire.decode_stream s) ++ [IReleaseAll] ->
+    concat (map Wire.encode_batch (msends false cs rs))
+    = Pipeline.device_bytes_out is_action L s ++ Pipeline.device_bytes_tablet_on is_action L s.
+Proof. exact Pipeline.pipeline_bytes_then_tablet_event. Qed.
+Print Assumptions C10_bytes_out_after_a_tablet_event.
+
+(* No stuck keys AT THE DEVICE, whatever the chunking: for EVERY layout file
+   the loader accepts, under the hypotheses above with everything that arrived
+   read: if the key events of s leave no key physically held (C01's notion;
+   `phys_of (map IEv h)` is the held-set fold `apply_evs [] h`:
+   Pipeline.phys_of_key_events), then a program that reads the written bytes with
+   the same reader and folds them into a held set ends with NO key held. *)
+Theorem C10_no_stuck_keys_at_the_device :
+  forall (is_action : key -> bool) (j : Json.json) (L : layout) (rs : list resp) (cs : list call)
+         (o : outcome) (s : list N) (kends : bool) (tb : list bool) (tends : bool) (t0 : Z) (e' : env),
+    Convert.load j = RustOps.Ok L ->
+    Loop.run is_action L rs = (cs, o) -> no_tab_event rs ->
+    epath (env0 (Wire.decode_stream s) kends tb tends t0) (combine cs rs) e' ->
+    kbd_reads (combine cs rs) = Wire.decode_stream s ->
+    phys_of (map IEv (Wire.decode_stream s)) = [] ->
+    apply_evs [] (Wire.decode_stream (concat (map Wire.encode_batch (msends false cs rs)))) = [].
+Proof. exact Pipeline.loop_no_stuck_keys_at_the_device. Qed.
+Print Assumptions C10_no_stuck_keys_at_the_device.
+
+(* The same with tablet events and without asking that everything was read: the
+   inputs the transcript implies for the mapper (release-all at each tablet
+   event) leave no key physically held. *)
+Theorem C10_no_stuck_keys_at_the_device_with_tablet_events :
+  forall (is_action : key -> bool) (j : Json.json) (L : layout) (rs : list resp) (cs : list call)
+         (o : outcome) (s : list N) (kends : bool) (tb : list bool) (tends : bool) (t0 : Z) (e' : env),
+    Convert.load j = RustOps.Ok L ->
+    Loop.run is_action L rs = (cs, o) ->
+    epath (env0 (Wire.decode_stream s) kends tb tends t0) (combine cs rs) e' ->
+    phys_of (minputs false (combine cs rs)) = [] ->
+    apply_evs [] (Wire.decode_stream (concat (map Wire.encode_batch (msends false cs rs)))) = [].
+Proof. exact Pipeline.loop_no_stuck_keys_tablet. Qed.
+Print Assumptions C10_no_stuck_keys_at_the_device_with_tablet_events.
+
+(* ALL the bytes, timer chords included, at EVERY moment of EVERY run: in the
+   configuration in which the k-th call is answered, the bytes of all sends
+   acknowledged so far (`Pipeline.acked_sends`: one batch per send answered
+   RUnit) followed by the send being waited on (`Pipeline.pending_sends`), read
+   back with the tool's reader, are exactly those events; they press no held key
+   and release no key that is up; the held set they leave is the mapper's own
+   held set; and it is EMPTY whenever the mapper inputs so far leave no key
+   physically held. *)
+Theorem C10_every_write_keeps_the_device_in_step :
+  forall (is_action : key -> bool) (j : Json.json) (L : layout) (rs : list resp) (cs : list call)
+         (o : outcome) (s : list N) (kends : bool) (tb : list bool) (tends : bool) (t0 : Z) (e' : env)
+         (k : nat) (x : conf),
+    Convert.load j = RustOps.Ok L ->
+    Loop.run is_action L rs = (cs, o) ->
+    epath (env0 (Wire.decode_stream s) kends tb tends t0) (combine cs rs) e' ->
+    conf_at is_action L rs k = Some x ->
+    let batches := Pipeline.acked_sends (firstn k (combine cs rs)) ++ Pipeline.pending_sends (c_point x) in
+    Wire.decode_stream (Pipeline.bytes_of_sends batches) = concat batches
+    /\ redundant [] (Wire.decode_stream (Pipeline.bytes_of_sends batches)) = false
+    /\ Trace.seteq (apply_evs [] (Wire.decode_stream (Pipeline.bytes_of_sends batches)))
+                   (Trace.held_of (l_mapper (c_state x)))
+    /\ (phys_of (minputs false (firstn k (combine cs rs))) = [] ->
+        apply_evs [] (Wire.decode_stream (Pipeline.bytes_of_sends batches)) = []).
+Proof. exact Pipeline.loop_device_in_step. Qed.
+Print Assumptions C10_every_write_keeps_the_device_in_step.
+
+(* Non-vacuity.  A CAPSLOCK-layer layout that the loader accepts; a byte stream
+   with SYN_REPORT and MSC_SCAN records, an auto-repeat record, a record with an
+   unknown code and a torn tail between and around four key events; the loop
+   reading them in one wake-up (rsA) or in three with a spurious time-out and an
+   interruption in between (rsB) writes the same 144 bytes = device_bytes_out;
+   read back they are the mapper's four events and leave nothing held, while
+   after the first 96 bytes of input two keys are held. *)
+Example C10_example_bytes :
+  let ia := fun k => negb (N.eqb k 42) in
+  let L := [mkMapping [58%N] [] RNormal []; mkMapping [58%N; 36%N] [42%N; 105%N] RNormal []] in
+  let s := WireSpec.raw_stream
+             [WireSpec.mk_raw 5 6 1 58 1; WireSpec.mk_raw 5 6 0 0 0; WireSpec.mk_raw 5 7 4 4 458788;
+              WireSpec.mk_raw 5 7 1 36 1; WireSpec.mk_raw 5 7 0 0 0; WireSpec.mk_raw 5 8 1 36 2;
+              WireSpec.mk_raw 5 9 1 58 0; WireSpec.mk_raw 5 9 1 600 1; WireSpec.mk_raw 6 0 1 36 0]
+           ++ [7; 7; 7]%N in
+  let rsA := [RUnit; RPoll (PDeviceEvent [DKbd]); RKbd (NOne (Pressed 58%N)); RKbd (NOne (Pressed 36%N)); RUnit;
+              RKbd (NOne (Released 58%N)); RUnit; RKbd (NOne (Released 36%N)); RKbd NBusy] in
+  let rsB := [RUnit; RPoll (PDeviceEvent [DKbd]); RKbd (NOne (Pressed 58%N)); RKbd NBusy;
+              RPoll PTimedOut; RPoll PInterrupted; RPoll (PDeviceEvent [DTab; DKbd]); RTab NBusy;
+              RKbd (NOne (Pressed 36%N)); RUnit; RKbd (NOne (Released 58%N)); RUnit; RKbd NBusy;
+              RPoll (PDeviceEvent [DKbd]); RKbd (NOne (Released 36%N)); RKbd NBusy] in
+  let out := fun rs => concat (map Wire.encode_batch (msends false (fst (Loop.run ia L rs)) rs)) in
+  Convert.load (Serde.to_json L) = RustOps.Ok L
+  /\ Wire.decode_stream s = [Pressed 58%N; Pressed 36%N; Released 58%N; Released 36%N]
+  /\ kbd_reads (combine (fst (Loop.run ia L rsA)) rsA) = Wire.decode_stream s
+  /\ kbd_reads (combine (fst (Loop.run ia L rsB)) rsB) = Wire.decode_stream s
+  /\ out rsA = Pipeline.device_bytes_out ia L s
+  /\ out rsB = Pipeline.device_bytes_out ia L s
+  /\ length (Pipeline.device_bytes_out ia L s) = 144%nat
+  /\ Wire.decode_stream (out rsB) = [Pressed 42%N; Pressed 105%N; Released 105%N; Released 42%N]
+  /\ phys_of (map IEv (Wire.decode_stream s)) = []
+  /\ apply_evs [] (Wire.decode_stream (out rsB)) = []
+  /\ apply_evs [] (Wire.decode_stream (Pipeline.device_bytes_out ia L (firstn 96 s))) = [42%N; 105%N].
+Proof. vm_compute. repeat split; reflexivity. Qed.
+
+(* Non-vacuity of the tablet-event theorems: two keys of the same layout go
+   down (with a SYN_REPORT and an MSC_SCAN record in between), then the tablet
+   switch turns on; the written bytes are device_bytes_out followed by the
+   release-all batch, and read back they leave nothing held although the
+   keyboard never reported a release. *)
+Example C10_example_tablet_event :
+  let ia := fun k => negb (N.eqb k 42) in
+  let L := [mkMapping [58%N] [] RNormal []; mkMapping [58%N; 36%N] [42%N; 105%N] RNormal []] in
+  let s := WireSpec.raw_stream
+             [WireSpec.mk_raw 5 6 1 58 1; WireSpec.mk_raw 5 6 0 0 0; WireSpec.mk_raw 5 7 4 4 458788;
+              WireSpec.mk_raw 5 7 1 36 1] in
+  let rs := [RUnit; RPoll (PDeviceEvent [DKbd]); RKbd (NOne (Pressed 58%N)); RKbd (NOne (Pressed 36%N)); RUnit;
+             RKbd NBusy; RPoll (PDeviceEvent [DTab]); RTab (NOne true); RUnit; RTab NBusy] in
+  let cs := fst (Loop.run ia L rs) in
+  let out := concat (map Wire.encode_batch (msends false cs rs)) in
+  minputs false (combine cs rs) = map IEv (Wire.decode_stream s) ++ [IReleaseAll]
+  /\ out = Pipeline.device_bytes_out ia L s ++ Pipeline.device_bytes_tablet_on ia L s
+  /\ Wire.decode_stream (Pipeline.device_bytes_out ia L s) = [Pressed 42%N; Pressed 105%N]
+  /\ Wire.decode_stream (Pipeline.device_bytes_tablet_on ia L s) = [Released 105%N; Released 42%N]
+  /\ phys_of (map IEv (Wire.decode_stream s)) = [58%N; 36%N]
+  /\ phys_of (minputs false (combine cs rs)) = []
+  /\ apply_evs [] (Wire.decode_stream out) = [].
+Proof. vm_compute. repeat split; reflexivity. Qed.
+
+(* Non-vacuity of C10_every_write_keeps_the_device_in_step with a timer chord:
+   the mapping fired by 58+36 repeats key 105; the send at index 9 directly
+   follows a TimedOut and is the chord.  When the 10th call is answered the
+   acknowledged batches are the step output and the chord, and 42 is held; when
+   the last call is answered, all three batches read back leave nothing held. *)
+Example C10_example_all_writes :
+  let ia := fun k => negb (N.eqb k 42) in
+  let L := [mkMapping [58%N; 36%N] [42%N; 105%N] (RSpecial [105%N] 180 30) []; mkMapping [58%N] [] RNormal []] in
+  let rs := [RUnit; RPoll (PDeviceEvent [DKbd]); RKbd (NOne (Pressed 58%N)); RKbd (NOne (Pressed 36%N)); RUnit;
+             RNow 1000; RKbd NBusy; RNow 2000; RPoll PTimedOut; RUnit; RNow 3000; RPoll (PDeviceEvent [DKbd]);
+             RKbd (NOne (Released 58%N)); RUnit; RKbd (NOne (Released 36%N)); RKbd NBusy] in
+  let cs := fst (Loop.run ia L rs) in
+  let batches := fun k =>
+    match conf_at ia L rs k with
+    | Some x => Pipeline.acked_sends (firstn k (combine cs rs)) ++ Pipeline.pending_sends (c_point x)
+    | None => []
+    end in
+  Convert.load (Serde.to_json L) = RustOps.Ok L
+  /\ nth_error cs 8 = Some (CPoll (Some 179999000%Z))
+  /\ nth_error cs 9 = Some (CSend [Pressed 105%N; Released 105%N])
+  /\ msends false cs rs = [[Pressed 42%N; Pressed 105%N; Released 105%N]; [Released 42%N]]
+  /\ batches 10%nat = [[Pressed 42%N; Pressed 105%N; Released 105%N]; [Pressed 105%N; Released 105%N]]
+  /\ apply_evs [] (Wire.decode_stream (Pipeline.bytes_of_sends (batches 10%nat))) = [42%N]
+  /\ batches 15%nat = [[Pressed 42%N; Pressed 105%N; Released 105%N]; [Pressed 105%N; Released 105%N];
+                       [Released 42%N]]
+  /\ phys_of (minputs false (firstn 15 (combine cs rs))) = []
+  /\ apply_evs [] (Wire.decode_stream (Pipeline.bytes_of_sends (batches 15%nat))) = [].
 Proof. vm_compute. repeat split; reflexivity. Qed.
